@@ -43,7 +43,7 @@ type Socket struct {
 	IP     string
 	lns    []*Listener
 	all    []*Listener // every descriptor ever opened
-	queue  []*End // server-side ends not yet accepted
+	queue  []*End      // server-side ends not yet accepted
 	Dead   bool
 	MinFds int // lowest descriptor count seen after first open
 	Opened int // total descriptors ever opened
@@ -150,8 +150,8 @@ func (n *Net) Sockets() []*Socket {
 	return append([]*Socket(nil), n.socks...)
 }
 
-func (l *Listener) Socket() *Socket { return l.sock }
-func (l *Listener) Addr() net.Addr  { return l.inner.Addr() }
+func (l *Listener) Socket() *Socket     { return l.sock }
+func (l *Listener) Addr() net.Addr      { return l.inner.Addr() }
 func (l *Listener) Inner() FileListener { return l.inner }
 
 func (l *Listener) File() (*os.File, error) {
@@ -343,7 +343,7 @@ type End struct {
 	finQueued bool
 	delivered []byte
 	finDeliv  bool
-	closed    bool  // closed locally
+	closed    bool // closed locally
 	closedAt  time.Duration
 	rerr      error // reset
 	Stalled   bool  // no delivery towards this end while set
@@ -353,9 +353,9 @@ type End struct {
 	cuts      *Stream
 	CutMode   int // 0 = by stream, 1 = always whole, 2 = byte by byte for first CutBytes
 	CutBytes  int
-	CutPlan   []int // explicit sizes of successive deliveries (then whole)
-	RecvTotal int   // total bytes ever delivered to this end
-	SentTotal int   // total bytes this end ever sent
+	CutPlan   []int  // explicit sizes of successive deliveries (then whole)
+	RecvTotal int    // total bytes ever delivered to this end
+	SentTotal int    // total bytes this end ever sent
 	OnData    func() // called (under no lock) after a delivery towards this end
 	// Opaque marks a direction whose byte counts are not reproducible (TLS
 	// records carrying signatures, FastCGI params written in map order): it is
@@ -368,12 +368,12 @@ func (e *End) bcast() {
 	e.notify = make(chan struct{})
 }
 
-func (e *End) Conn() *Conn           { return e.conn }
-func (e *End) LocalAddr() net.Addr   { return e.local }
-func (e *End) RemoteAddr() net.Addr  { return e.remote }
-func (e *End) SetWindow(w int)       { e.window = w }
-func (e *End) Peer() *End            { return e.peer }
-func (e *End) Name() string          { return fmt.Sprintf("conn%d.%s", e.conn.ID, e.side) }
+func (e *End) Conn() *Conn          { return e.conn }
+func (e *End) LocalAddr() net.Addr  { return e.local }
+func (e *End) RemoteAddr() net.Addr { return e.remote }
+func (e *End) SetWindow(w int)      { e.window = w }
+func (e *End) Peer() *End           { return e.peer }
+func (e *End) Name() string         { return fmt.Sprintf("conn%d.%s", e.conn.ID, e.side) }
 
 type timeoutErr struct{}
 
@@ -436,7 +436,12 @@ func (e *End) Read(p []byte) (n int, err error) {
 	}
 }
 
+var dumpNet = os.Getenv("SIM_DUMPNET") != ""
+
 func (e *End) Write(p []byte) (int, error) {
+	if dumpNet {
+		fmt.Fprintf(os.Stderr, "%s W %q\n", e.Name(), p)
+	}
 	mu := &e.conn.n.mu
 	total := 0
 	for {
